@@ -2,10 +2,10 @@
 (***************************************************************************)
 (* Role 3: judge the observations of the real code for property C20.       *)
 (* Params!ObsFile holds one record per observation (kinds beh, res,        *)
-(* bundle, extval, xset, xlabel); Params!TreeFile holds the annotated FHIR *)
+(* bundle, extval, xset, xlabel); C20Params!TreeFile holds the annotated FHIR *)
 (* JSON trees the extraction records refer to by key.                      *)
 (***************************************************************************)
-EXTENDS C20, Json, Params
+EXTENDS C20, Json, Params, C20Params
 
 Obs   == ndJsonDeserialize(ObsFile)
 Trees == JsonDeserialize(TreeFile)
